@@ -94,7 +94,10 @@ func copyTree(src, dst string) error {
 		}
 		rel, _ := filepath.Rel(src, p)
 		if rel == ".git" {
-			return filepath.SkipDir
+			if d.IsDir() {
+				return filepath.SkipDir
+			}
+			return nil // a worktree's .git is a file
 		}
 		target := filepath.Join(dst, rel)
 		if d.IsDir() {
@@ -199,6 +202,7 @@ type found struct {
 	race      bool   // found by (and replayable with) the race-detector build
 	isRace    bool   // the violation is a race report
 	crash     bool   // the run killed the worker process inside the code under test
+	hang      bool   // the run does not terminate
 }
 
 type workerResult struct {
@@ -520,7 +524,25 @@ func check(id, tier string) int {
 			case err = <-done:
 			case <-time.After(budget + 90*time.Second):
 				cmd.Process.Kill()
-				troubles[i] = fmt.Sprintf("watchdog: worker for runs [%d,%d) (race=%v) did not finish within its budget (a run never returned: model and real primitive disagree, or an unbounded loop); its output so far: %s %s", j.from, j.to, j.race, tail(o.String(), 500), tail(e.String(), 1500))
+				// a single run that never returns: either the code under test spins
+				// without reaching any synchronisation operation, or the harness is
+				// broken. Re-execute the run in flight from its seed, alone, with a
+				// generous limit: if it hangs again it is reported as what it is.
+				if pb, perr := os.ReadFile(filepath.Join(sc.dir, fmt.Sprintf("progress.%d", i))); perr == nil && len(pb) == 8 {
+					var run int64
+					for k := 0; k < 8; k++ {
+						run |= int64(pb[k]) << (8 * k)
+					}
+					file := filepath.Join(replayDir, fmt.Sprintf("%s-seed%d-run%d-hang.json", id, seed, run))
+					if _, derr := runCmd(j.bin, "-prop", id, "-seed", strconv.FormatInt(seed, 10), "-tier", tier, "-dumprun", strconv.FormatInt(run, 10), "-outfile", file); derr == nil {
+						if hangs(j.bin, id, file) {
+							crashes[i] = &found{Signature: "hang: the run does not terminate", Detail: "re-executed alone from its seed, the run again did not finish within 60 s", Replay: file, Run: run, race: j.race, hang: true}
+							results[i] = workerResult{Counts: map[string]int64{}}
+							return
+						}
+					}
+				}
+				troubles[i] = fmt.Sprintf("watchdog: worker for runs [%d,%d) (race=%v) did not finish within its budget and the run in flight terminates when re-executed alone; its output so far: %s %s", j.from, j.to, j.race, tail(o.String(), 500), tail(e.String(), 1500))
 				return
 			}
 			line := lastLine(o.String())
@@ -621,8 +643,14 @@ func check(id, tier string) int {
 		if v.race {
 			bin = sc.race
 		}
-		code, out, errOut := replayOnce(bin, id, v.Replay, false)
-		if v.crash {
+		var code int
+		var out, errOut string
+		if !v.hang {
+			code, out, errOut = replayOnce(bin, id, v.Replay, false)
+		}
+		if v.hang {
+			code = 3 // confirmed when it was found: hangs() re-executed it alone
+		} else if v.crash {
 			if crashSignature(errOut) != v.Signature {
 				fail2("a worker crash did not reproduce when run %d was re-executed from %s: %s", v.Run, v.Replay, tail(errOut, 1500))
 			}
@@ -764,6 +792,26 @@ func minimiseRace(sc *scratch, id, file, sig, detail string) (string, string) {
 		return file, detail
 	}
 	return dst, curDetail
+}
+
+// hangs re-executes a replay file alone and reports whether it fails to finish
+// within 60 seconds (a run normally takes milliseconds).
+func hangs(bin, prop, file string) bool {
+	cmd := exec.Command(bin, "-prop", prop, "-replay", file)
+	cmd.Env = append(os.Environ(), "GORACE=halt_on_error=0 exitcode=0")
+	if err := cmd.Start(); err != nil {
+		return false
+	}
+	done := make(chan struct{})
+	go func() { cmd.Wait(); close(done) }()
+	select {
+	case <-done:
+		return false
+	case <-time.After(60 * time.Second):
+		cmd.Process.Kill()
+		<-done
+		return true
+	}
 }
 
 func runCmd(bin string, args ...string) (string, error) {
@@ -915,6 +963,14 @@ func replayCmd(file string) int {
 	bin := sc.plain
 	if meta.Race {
 		bin = sc.race
+	}
+	if strings.HasPrefix(meta.Violation.Signature, "hang") || strings.HasSuffix(file, "-hang.json") {
+		if hangs(bin, meta.Property, file) {
+			fmt.Printf("VIOLATION property=%s replay=%s\n  signature: hang: the run does not terminate\n", meta.Property, file)
+			return 1
+		}
+		fmt.Printf("verifsim: replay of %s terminates on the current tree\n", file)
+		return 0
 	}
 	code, out, errOut := replayOnce(bin, meta.Property, file, true)
 	fmt.Print(out)
